@@ -15,7 +15,7 @@ CLAIMED = {
     "C14": dict(
         category="fault_enumeration",
         technique="deterministic simulation of belief propagation as a message-passing system: simulator-owned activation schedule (touched), message loss / staleness / duplication / corruption / knob changes, settled-message reference model, bounded-round convergence after faults stop; plus library-scheduled runs over drawn options",
-        text="Seeded random forests (hyper-edges, dangling indices, several components, lazy site groups) for all six BP flavours. Configuration B replaces the round loop by a recorded activation schedule with injected message faults; after every quantum every message the model proves settled must equal the exact message, and after the faults stop all messages, the contraction value and all marginals must be exact within diameter-bounded fair rounds (or after the library's own run()). Configuration A runs the library loop under drawn update / damping / local-convergence / normalisation / initial-message / insertion-order options and the function entry points, incl. gauge/compress invariance. Sampling: evidence, not proof.",
+        text="Seeded random forests (hyper-edges, dangling indices, several components, lazy site groups) for all six BP flavours. Configuration B replaces the round loop by a recorded activation schedule with injected message faults; after every quantum every message the model proves settled must equal the exact message, and after the faults stop all messages, the contraction value and all marginals must be exact within diameter-bounded fair rounds (or after the library's own run()). Configuration A runs the library loop under drawn update / damping / local-convergence / normalisation / initial-message / insertion-order options and the function entry points; value, all marginals and every message are compared with the exact ones, the loop / generalised-loop expansions must reduce to the exact value on trees, and gauging / untruncated compression (D2BP and L2BP entry points) must leave the dense state unchanged. Sampling: evidence, not proof.",
         design_ref="DESIGN.md §3.2",
         note="Dense numpy einsum of <= 8 small tensors is the exact reference; signed/complex data judged only undamped and when every exact message is well conditioned; HV1BP pool tasks scheduled by the simulated pool.",
     ),
@@ -43,7 +43,7 @@ CLAIMED = {
     "C07": dict(
         category="exploration",
         technique="deterministic simulation: seeded interleaving of gate application, parameter updates, forks, queries, suspended sampler generators, rejected gates, abandoned generators and settrace-injected interrupts inside cached readers, over all five circuit simulator classes; dense state-vector reference model built from the circuit's own gate record",
-        text="Up to three circuit objects (Circuit in every contract mode, CircuitDense, CircuitMPS, CircuitPermMPS, CircuitMPSLazy; 2-5 qubits) driven over the full registered gate vocabulary with drawn parameters, controls, raw unitaries, SWAP/IDEN, parametrize and all spellings; every gate's matrix is checked unitary; after rejected gates the record must be unchanged and later queries still exact; every reader (to_dense, amplitude, uni, partial_trace, local_expectation incl. lists and dtype, compute_marginal with fix, simplified psi / rdm, fidelity_estimate) is compared with the model; samplers are generators suspended across writer steps and must yield supported strings; interrupts are raised at a recorded line inside readers of the exact classes and later queries must still be right. Sampling: evidence, not proof.",
+        text="Up to three circuit objects (Circuit in every contract mode, CircuitDense, CircuitMPS, CircuitPermMPS, CircuitMPSLazy; 2-5 qubits) driven over the full registered gate vocabulary with drawn parameters, controls, raw unitaries, SWAP/IDEN, parametrize and all spellings; every gate's matrix is checked unitary; after rejected gates the record must be unchanged and later queries still exact; every reader (to_dense, amplitude, uni, partial_trace, local_expectation incl. lists and dtype, compute_marginal with fix, simplified psi / rdm, fidelity_estimate) is compared with the model; samplers are generators suspended across writer steps and must yield supported strings; a seeded sampler run on the live circuit must equal the same sampler on a fresh replica of its recorded gates (history independence, double precision); a third of the runs use a sparse-support gate vocabulary so wrong distributions show as unsupported strings; interrupts are raised at a recorded line inside readers of the exact classes and later queries must still be right. Sampling: evidence, not proof.",
         design_ref="DESIGN.md §3.4",
         note="sample_gate_by_gate needs networkx, which is not installed here, and did not run; sample_chaotic only with every qubit as marginal qubit (otherwise it is approximate by design); PEPS/PEPO simple-update circuits truncate by construction and are out; a suspended sampler is accepted when its sample is supported on any state held since it first ran.",
     ),
